@@ -70,6 +70,10 @@ func (r *RootCertificates) Store(ctx context.Context, storage nodeenrollment.Sto
 		if err != nil {
 			return fmt.Errorf("(%s) error reading wrapper key id: %w", op, err)
 		}
+		if keyId == "" {
+			// Load recognizes sealed records by a non-empty wrapping key ID
+			return fmt.Errorf("(%s) storage wrapper has no key id", op)
+		}
 		rootsToStore.WrappingKeyId = keyId
 
 		for _, root := range []*RootCertificate{rootsToStore.Current, rootsToStore.Next} {
